@@ -89,12 +89,32 @@ STD_HISTORIES = (['sort_rev_s'], ['sort_rev_o'], ['transpose2'], ['filter_s'], [
                  ['sort_rev_s', 'filter_o'], ['filter_s', 'sort_rev_o'], ['iter_s', 'nnz'], ['copy', 'iter_o'])
 
 
+class HistoryError(Exception):
+    pass
+
+
 def build(case):
     """table of a case: state (rt.table_from_case) + optional history"""
     t = rt.table_from_case(case)
     for h in case.get('hist') or ():
-        t = HISTORIES[h](t)
+        try:
+            t = HISTORIES[h](t)
+        except Exception as e:      # noqa
+            raise HistoryError('%s: %s: %s' % (h, type(e).__name__, e))
     return t
+
+
+def history_guard(run_case):
+    """a prior public operation that raises on a valid table is reported as a
+    failed case (clause history/operation-returns), not as a harness crash"""
+    def guarded(case):
+        try:
+            return run_case(case)
+        except HistoryError as e:
+            return {'fails': [rt.fail('history/operation-returns', base_class(case), 'the prior operation returns',
+                                      str(e))], 'n': 1, 'nontrivial': False}
+    guarded.__name__ = getattr(run_case, '__name__', 'guarded')
+    return guarded
 
 
 def base_class(case):
@@ -102,6 +122,9 @@ def base_class(case):
     if case.get('hist'):
         c = ('' if c == 'canonical' else c + '+') + 'hist:' + ','.join(case['hist'])
     return c
+
+
+_CLASS_CACHE = {}
 
 
 def classify(case, fails, core, tag='', family=None):
@@ -118,11 +141,18 @@ def classify(case, fails, core, tag='', family=None):
     is a matter of luck)."""
     out = []
     seen = set()
+    sig = (tag, case.get('layout', 'csr'), case.get('zeros', 'nz'), case.get('ids', 'plain'),
+           tuple(case.get('hist') or ()), bool(np.size(case['A']) and np.min(case['A']) < 0))
     for f in fails:
         clause = f[0]
         if clause in seen:
             continue
         seen.add(clause)
+        # the minimisation is done once per (clause, representation signature) and process: a defect that
+        # fails on a large part of the scope must not multiply the running time
+        if (clause, sig) in _CLASS_CACHE:
+            out.append(rt.fail(clause, _CLASS_CACHE[(clause, sig)], f[1], f[2]))
+            continue
         simp = dict(case)
         steps = (('hist', None), ('ids', 'plain'), ('layout', 'csr'), ('zeros', 'nz'), ('A', 'abs'))
         for key, val in steps + steps[:1]:      # the history is tried again once the rest is simplified
@@ -155,6 +185,7 @@ def classify(case, fails, core, tag='', family=None):
         wc = base_class(simp)
         if tag:
             wc = wc + '+' + tag
+        _CLASS_CACHE[(clause, sig)] = wc
         out.append(rt.fail(clause, wc, f[1], f[2]))
     return out
 
@@ -177,7 +208,7 @@ def rep_states(dm, layouts=rt.LAYOUTS, zeros=rt.ZEROS, **kw):
 
 def small_matrices(tier, values=(0, 1, 2)):
     """every matrix over `values` up to 2x2 (quick: plus every 11th of 2x3/3x2;
-    thorough: plus all 2x3/3x2 and every 13th 3x3)"""
+    thorough: plus all 2x3/3x2 and every 29th 3x3)"""
     for dm in rt.matrices(0, 0, values=values, shapes=[(1, 1), (1, 2), (2, 1), (2, 2)]):
         yield dm
     step = 11 if tier == 'quick' else 1
@@ -186,7 +217,7 @@ def small_matrices(tier, values=(0, 1, 2)):
             yield dm
     if tier != 'quick':
         for k, dm in enumerate(rt.matrices(0, 0, values=values, shapes=[(3, 3)])):
-            if k % 13 == 0:
+            if k % 29 == 0:
                 yield dm
 
 
@@ -267,11 +298,65 @@ def json_biom_text(v, table_type='OTU table'):
     return json.dumps(doc)
 
 
-def write_text(dirname, name, text):
-    p = os.path.join(dirname, name)
-    with open(p, 'w', encoding='utf-8') as fh:
-        fh.write(text)
-    return p
+_SHARED = {'dir': None}
+
+
+class shared_tmp:
+    """used by run(): one directory from tempfile.mkdtemp() (outside /repo and
+    /verif) for the whole run, created before the workers are forked and
+    removed afterwards; removing a directory per case is slow on this file
+    system, removing files is not"""
+    def __enter__(self):
+        import tempfile
+        _SHARED['dir'] = tempfile.mkdtemp(prefix='verif_values_')
+        return _SHARED['dir']
+
+    def __exit__(self, *a):
+        import shutil
+        shutil.rmtree(_SHARED['dir'], ignore_errors=True)
+        _SHARED['dir'] = None
+        return False
+
+
+class TmpFiles:
+    """per-case temporary files: uniquely prefixed files in the run's shared
+    directory (or an own mkdtemp directory when a case is replayed alone), all
+    removed on exit"""
+    _n = 0
+
+    def __enter__(self):
+        import tempfile
+        self.own = None
+        if _SHARED['dir'] and os.path.isdir(_SHARED['dir']):
+            self.dir = _SHARED['dir']
+        else:
+            self.dir = self.own = tempfile.mkdtemp(prefix='verif_values_')
+        TmpFiles._n += 1
+        self.prefix = '%d_%d_' % (os.getpid(), TmpFiles._n)
+        self.paths = []
+        return self
+
+    def path(self, name):
+        p = os.path.join(self.dir, self.prefix + name)
+        self.paths.append(p)
+        return p
+
+    def write(self, name, text):
+        p = self.path(name)
+        with open(p, 'w', encoding='utf-8') as fh:
+            fh.write(text)
+        return p
+
+    def __exit__(self, *a):
+        import shutil
+        for p in self.paths:
+            try:
+                os.unlink(p)
+            except OSError:
+                pass
+        if self.own:
+            shutil.rmtree(self.own, ignore_errors=True)
+        return False
 
 
 def every(it, step, offset=0):
